@@ -217,6 +217,19 @@ impl Gen
             lines.push(Line::Emit{ target : t.clone(), salt : salt, inputs : inputs, exec : exec });
             targets.push(t);
         }
+        // sometimes two targets of one rule are made the same way (stamp files, copies): siblings
+        // with byte-identical content share one cache entry
+        if lines.len() >= 2 && self.rng.chance(1, 6)
+        {
+            if let Line::Emit{ salt, inputs, .. } = lines[0].clone()
+            {
+                if let Line::Emit{ salt : s2, inputs : i2, .. } = &mut lines[1]
+                {
+                    *s2 = salt;
+                    *i2 = inputs;
+                }
+            }
+        }
         if self.cfg.failing && self.rng.below(24) < self.cfg.fail_rate
         {
             match self.rng.below(4)
@@ -411,15 +424,33 @@ impl Gen
     {
         let mut rules = self.rules.clone();
         let k = self.rng.below(rules.len() as u64) as usize;
-        match self.rng.below(10)
+        match self.rng.below(11)
         {
             7 =>
             {
-                // delete a rule nobody depends on (its targets stay behind as undeclared files)
+                // delete a rule (its targets stay behind as undeclared files — or, when another rule
+                // reads them, become plain source files that ruler no longer makes)
                 let used = rules.iter().any(|r| r.sources.iter().any(|s| rules[k].targets.contains(s)));
-                if !used && rules.len() > 1
+                if rules.len() > 1 && (!used || self.rng.chance(1, 2))
                 {
-                    rules.remove(k);
+                    let gone = rules.remove(k);
+                    if used
+                    {
+                        for t in gone.targets.iter()
+                        {
+                            if !self.leaves.contains(t) { self.leaves.push(t.clone()); }
+                        }
+                    }
+                }
+            },
+            10 =>
+            {
+                // edit the command so that it no longer generates one declared target
+                let emits : Vec<usize> = rules[k].lines.iter().enumerate().filter(|(_, l)| match l { Line::Emit{..} => true, _ => false }).map(|(i, _)| i).collect();
+                if emits.len() > 0 && self.cfg.failing
+                {
+                    let li = *self.rng.pick(&emits);
+                    rules[k].lines.remove(li);
                 }
             },
             8 =>
